@@ -427,3 +427,43 @@ func cliScheduleProbe(v6 bool, readError bool) string {
 	}
 	return what
 }
+
+// Probe "write error, then the same id again" of oracle c10 (virtual time): the first
+// WriteTo of a call fails although the client is open; the call reports the write error.
+// A later call with the same transaction id is a call like any other: it is not refused
+// as "in use" (only a CONCURRENT call with the id is), and the server's answer to it is
+// what it returns, after one transmission.
+// (seeded change C10-4: the registration of a call whose write failed left behind.)
+func cliWriteErrorReuseProbe(v6 bool) string {
+	var what string
+	status := inBubble(20*time.Second, func() {
+		start := time.Now()
+		conn := cli_newScriptConn(func() int64 { return int64(time.Since(start)) })
+		conn.failWrite = 0
+		cl := newClient(v6, conn, 500*time.Millisecond, 2, -1)
+		x := uint32(cliMXidBase + 11)
+		acc := func(class byte, idx int) bool { return class == 'A' }
+		if out := cl.call(context.Background(), x, acc, false); out != "werr" {
+			what = "a call whose first WriteTo fails on the open client ended with " + out + "; want the write error"
+			return
+		}
+		time.Sleep(20 * time.Millisecond)
+		// a late answer to the failed call: nobody waits for it
+		conn.inject(datagramFor(v6, "acc", x, 1))
+		time.Sleep(20 * time.Millisecond)
+		sent0 := len(conn.snapshot())
+		done := make(chan string, 1)
+		go func() { done <- cl.call(context.Background(), x, acc, false) }()
+		time.Sleep(5 * time.Millisecond)
+		conn.inject(datagramFor(v6, "acc", x, 2))
+		out := <-done
+		if sent := len(conn.snapshot()) - sent0; out != "resp2" || sent != 1 {
+			what = fmt.Sprintf("after a call with this transaction id had ended with a write error (and a late answer to it had arrived and gone), a new call with the same id, answered 5 ms after its request by datagram #2, ended with %s after %d transmissions; want resp2 after 1", out, sent)
+		}
+		cl.close()
+	})
+	if status != "ok" && what == "" {
+		what = "write-error-reuse probe: bubble ended with " + status
+	}
+	return what
+}
